@@ -1,5 +1,5 @@
 (* correspondence cases for the pipeline properties (C01 C02 C07-C11, C17) *)
-From Tola Require Import Py.Base Model.Fragment Model.Scaffold Model.Namer Model.Remap.
+From Tola Require Import Py.Base Model.Fragment Model.Scaffold Model.Namer Model.Remap Model.Stats Model.OutputPlan.
 
 (* observed output scaffold: name, tag, haplotype, rank, original_name, rows *)
 Record oscaffold := mkOS {
@@ -7,8 +7,24 @@ Record oscaffold := mkOS {
   os_orig : option str; os_rows : list row
 }.
 Record oasm := mkOA { oa_k : option str; oa_cur : bool; oa_scs : list oscaffold }.
+(* --output name, FASTA index available, names of the files opened in order,
+   how the run ended (0 = to the end, 1 = sys.exit, 2 = another exception),
+   text written to the chromosome report, (file name, text) of the
+   chromosome lists *)
+Record oplan := mkOP {
+  op_name : str; op_fai : bool; op_opens : list str; op_end : Z;
+  op_report : option str; op_csvs : list (str * str)
+}.
+
 Record oout := mkOO {
-  oo_asms : list oasm; oo_cuts : Z; oo_breaks : Z; oo_joins : Z; oo_per : list (str * (Z * Z))
+  oo_asms : list oasm; oo_cuts : Z; oo_breaks : Z; oo_joins : Z; oo_per : list (str * (Z * Z));
+  (* chromosome_name_csv of every curated assembly, in dict order (None = no line) *)
+  oo_csv : list (option str * option str);
+  (* name_assemblies(out, "rt", "2"): (key, stem, curated, scaffold names); None = it raised *)
+  oo_named : option (list (option str * str * bool * list str));
+  (* the same case run through pretext_to_asm.cli with a recording
+     get_output_filehandle: None = not observed *)
+  oo_plan : option oplan
 }.
 
 Record case := mkCase {
@@ -41,6 +57,51 @@ Definition out_eqb (m : outputs) (o : oout) : bool :=
   && list_eqb (fun x y => str_eqb (fst x) (fst y) && (fst (snd x) =? fst (snd y))
                           && (snd (snd x) =? snd (snd y))) (out_per_asm m) (oo_per o).
 
+Definition csv_of (prefix : str) (m : outputs) : list (option str * option str) :=
+  map (fun a => (oa_key a, chromosome_name_csv prefix (oa_scaffolds a)))
+      (filter oa_curated (out_asms m)).
+
+Definition named_of (m : outputs) : option (list (option str * str * bool * list str)) :=
+  match name_assemblies (out_asms m) (s "rt") (s "2") with
+  | Ok l => Some (map (fun n => (na_key n, na_name n, na_curated n, map sc_name (na_scaffolds n))) l)
+  | Err _ => None
+  end.
+
+Definition named_eqb (a b : option str * str * bool * list str) : bool :=
+  let '(k1, n1, c1, l1) := a in let '(k2, n2, c2, l2) := b in
+  opt_eqb str_eqb k1 k2 && str_eqb n1 n2 && Bool.eqb c1 c2 && list_eqb str_eqb l1 l2.
+
+Definition extras_eqb (prefix : str) (m : outputs) (o : oout) : bool :=
+  list_eqb (fun x y => opt_eqb str_eqb (fst x) (fst y) && opt_eqb str_eqb (snd x) (snd y))
+           (csv_of prefix m) (oo_csv o)
+  && opt_eqb (list_eqb named_eqb) (named_of m) (oo_named o).
+
+Definition end_code (e : plan_end) : Z :=
+  match e with PlanDone => 0 | PlanExit1 => 1 | PlanRaised => 2 end.
+
+Definition model_csvs (prefix : str) (named : list named_asm) : list (str * str) :=
+  flat_map (fun n => if na_curated n
+                     then match chromosome_name_csv prefix (na_scaffolds n) with
+                          | Some t => [(na_name n ++ s ".chromosome.list.csv", t)]
+                          | None => []
+                          end
+                     else []) named.
+
+Definition plan_eqb (prefix : str) (m : outputs) (o : oplan) : bool :=
+  let '(opens, e) := output_plan prefix (op_name o) (op_fai o) (out_asms m) in
+  list_eqb str_eqb opens (op_opens o) && (end_code e =? op_end o)
+  && match e, parse_output_file (op_name o) with
+     | PlanDone, Ok f =>
+         match name_assemblies (out_asms m) (of_root f) (of_version f) with
+         | Ok named =>
+             opt_eqb str_eqb (chromosomes_report_csv prefix named) (op_report o)
+             && list_eqb (fun x y => str_eqb (fst x) (fst y) && str_eqb (snd x) (snd y))
+                         (model_csvs prefix named) (op_csvs o)
+         | Err _ => false
+         end
+     | _, _ => true
+     end.
+
 Definition default_gap : gap := mkGap 200 (s "scaffold").
 
 Definition run (c : case) : res outputs :=
@@ -48,7 +109,8 @@ Definition run (c : case) : res outputs :=
 
 Definition check (c : case) : bool :=
   match run c, c_obs c with
-  | Ok m, Some o => out_eqb m o
+  | Ok m, Some o => out_eqb m o && extras_eqb (c_prefix c) m o
+                     && match oo_plan o with Some pl => plan_eqb (c_prefix c) m pl | None => true end
   | Err _, None => true
   | _, _ => false
   end.
@@ -76,6 +138,15 @@ Definition diag (c : case) :=
                                  length (oa_scaffolds a), length (oa_scs b),
                                  map (fun '(x, y) => os_diag x y) (combine (oa_scaffolds a) (oa_scs b))))
                 (combine (out_asms m) (oo_asms o)),
-            out_per_asm m)
+            out_per_asm m, csv_of (c_prefix c) m, named_of m,
+            match oo_plan o with
+            | Some pl => Some (output_plan (c_prefix c) (op_name pl) (op_fai pl) (out_asms m),
+                               match parse_output_file (op_name pl) with
+                               | Ok f => match name_assemblies (out_asms m) (of_root f) (of_version f) with
+                                         | Ok named => Some (chromosomes_report_csv (c_prefix c) named, model_csvs (c_prefix c) named)
+                                         | Err _ => None end
+                               | Err _ => None end)
+            | None => None
+            end)
   | _, _ => None
   end.
